@@ -281,6 +281,265 @@ theorem esExec_nc (flags : Flags) (x : Node) (input : Array Nat) (start fuel : N
   simp only [esExec, hc]
   rw [compileNode_congr_pattern input _ _ hp, nc_eq]
 
+/-! ## Fuel monotonicity -/
+
+/-- information order: `outOfFuel` is below everything, the definite results are maximal -/
+def MatchResult.le (r r' : MatchResult) : Prop := r = .outOfFuel ∨ r = r'
+
+theorem MatchResult.le_refl (r : MatchResult) : r.le r := Or.inr rfl
+theorem MatchResult.oof_le (r : MatchResult) : MatchResult.le .outOfFuel r := Or.inl rfl
+
+def Cont.le (c c' : Cont) : Prop := ∀ y, (c y).le (c' y)
+
+theorem Cont.le_refl (c : Cont) : Cont.le c c := fun _ => MatchResult.le_refl _
+
+/-- A Matcher is monotone: more fuel and a more defined continuation give a more defined result. -/
+def Matcher.Mono (m : Matcher) : Prop :=
+  ∀ f f' x c c', f ≤ f' → Cont.le c c' → (m.run f x c).le (m.run f' x c')
+
+theorem emptyMatcher_mono : emptyMatcher.Mono := fun _ _ x _ _ _ hc => hc x
+
+theorem failMatcher_mono : Matcher.Mono ⟨fun _ _ _ => .failure⟩ :=
+  fun _ _ _ _ _ _ _ => MatchResult.le_refl _
+
+theorem matchTwoAlternatives_mono {m1 m2 : Matcher} (h1 : m1.Mono) (h2 : m2.Mono) :
+    (matchTwoAlternatives m1 m2).Mono := by
+  intro f f' x c c' hf hc
+  simp only [matchTwoAlternatives]
+  rcases h1 f f' x c c' hf hc with h | h
+  · rw [h]; exact .inl rfl
+  · rw [← h]
+    cases m1.run f x c
+    · exact h2 f f' x c c' hf hc
+    · exact MatchResult.le_refl _
+    · exact MatchResult.le_refl _
+
+theorem matchSequence_mono {m1 m2 : Matcher} (h1 : m1.Mono) (h2 : m2.Mono) (d : Direction) :
+    (matchSequence m1 m2 d).Mono := by
+  intro f f' x c c' hf hc
+  cases d <;> simp only [matchSequence]
+  · exact h1 f f' x _ _ hf (fun y => h2 f f' y c c' hf hc)
+  · exact h2 f f' x _ _ hf (fun y => h1 f f' y c c' hf hc)
+
+theorem characterSetMatcher_mono (input : Array Nat) (rer : RER) (a : CharSet) (inv : Bool)
+    (d : Direction) : (characterSetMatcher input rer a inv d).Mono := by
+  intro f f' x c c' _ hc
+  simp only [characterSetMatcher]
+  repeat (first | exact MatchResult.le_refl _ | exact hc _ | split)
+
+theorem backreferenceMatcher_mono (input : Array Nat) (rer : RER) (ns : List Nat) (d : Direction) :
+    (backreferenceMatcher input rer ns d).Mono := by
+  intro f f' x c c' _ hc
+  simp only [backreferenceMatcher]
+  repeat (first | exact MatchResult.le_refl _ | exact hc _ | split)
+
+theorem bolMatcher_mono (input : Array Nat) (rer : RER) : (bolMatcher input rer).Mono := by
+  intro f f' x c c' _ hc
+  simp only [bolMatcher]
+  repeat (first | exact MatchResult.le_refl _ | exact hc _ | split)
+
+theorem eolMatcher_mono (input : Array Nat) (rer : RER) : (eolMatcher input rer).Mono := by
+  intro f f' x c c' _ hc
+  simp only [eolMatcher]
+  repeat (first | exact MatchResult.le_refl _ | exact hc _ | split)
+
+theorem wordBoundaryMatcher_mono (input : Array Nat) (rer : RER) (neg : Bool) :
+    (wordBoundaryMatcher input rer neg).Mono := by
+  intro f f' x c c' _ hc
+  simp only [wordBoundaryMatcher]
+  repeat (first | exact MatchResult.le_refl _ | exact hc _ | split)
+
+theorem positiveLookMatcher_mono {m : Matcher} (h : m.Mono) : (positiveLookMatcher m).Mono := by
+  intro f f' x c c' hf hc
+  simp only [positiveLookMatcher]
+  rcases h f f' x _ _ hf (Cont.le_refl (fun y => .success y)) with h | h
+  · rw [h]; exact .inl rfl
+  · rw [← h]
+    cases m.run f x (fun y => .success y)
+    · exact MatchResult.le_refl _
+    · exact hc _
+    · exact MatchResult.le_refl _
+
+theorem negativeLookMatcher_mono {m : Matcher} (h : m.Mono) : (negativeLookMatcher m).Mono := by
+  intro f f' x c c' hf hc
+  simp only [negativeLookMatcher]
+  rcases h f f' x _ _ hf (Cont.le_refl (fun y => .success y)) with h | h
+  · rw [h]; exact .inl rfl
+  · rw [← h]
+    cases m.run f x (fun y => .success y)
+    · exact hc _
+    · exact MatchResult.le_refl _
+    · exact MatchResult.le_refl _
+
+theorem repeatMatcher_mono {m : Matcher} (h : m.Mono) (g : Bool) (pi pc : Nat) :
+    ∀ f f' min max x c c', f ≤ f' → Cont.le c c' →
+      (repeatMatcher m g pi pc f min max x c).le (repeatMatcher m g pi pc f' min max x c') := by
+  intro f
+  induction f with
+  | zero =>
+    intro f' min max x c c' _ hc
+    by_cases hm : max = some 0
+    · subst hm; rw [repeatMatcher_max_zero, repeatMatcher_max_zero]; exact hc x
+    · simp only [repeatMatcher, hm, if_false]; exact .inl rfl
+  | succ k ih =>
+    intro f' min max x c c' hf hc
+    obtain ⟨k', rfl⟩ : ∃ k', f' = k' + 1 := ⟨f' - 1, by omega⟩
+    by_cases hm : max = some 0
+    · subst hm; rw [repeatMatcher_max_zero, repeatMatcher_max_zero]; exact hc x
+    · simp only [repeatMatcher, hm, if_false]
+      have hd : ∀ min2 max2, Cont.le
+          (fun y => if min = 0 ∧ y.endIndex = x.endIndex then MatchResult.failure
+            else repeatMatcher m g pi pc k min2 max2 y c)
+          (fun y => if min = 0 ∧ y.endIndex = x.endIndex then MatchResult.failure
+            else repeatMatcher m g pi pc k' min2 max2 y c') := by
+        intro min2 max2 y
+        dsimp only
+        split
+        · exact MatchResult.le_refl _
+        · exact ih k' _ _ y c c' (by omega) hc
+      split
+      · exact h _ _ _ _ _ (by omega) (hd _ _)
+      · split
+        · rcases hc x with h0 | h0
+          · rw [h0]; exact .inl rfl
+          · rw [← h0]
+            cases c x
+            · exact h _ _ _ _ _ (by omega) (hd _ _)
+            · exact MatchResult.le_refl _
+            · exact MatchResult.le_refl _
+        · rcases h _ _ _ _ _ (show k + 1 ≤ k' + 1 by omega) (hd _ _) with h0 | h0
+          · rw [h0]; exact .inl rfl
+          · rw [← h0]
+            cases m.run (k + 1) _ _
+            · exact hc x
+            · exact MatchResult.le_refl _
+            · exact MatchResult.le_refl _
+
+
+theorem classStringMatcher_mono (input : Array Nat) (rer : RER) (d : Direction) (s : List Nat) :
+    (classStringMatcher input rer d s).Mono := by
+  induction s with
+  | nil => exact emptyMatcher_mono
+  | cons a rest ih =>
+    cases rest with
+    | nil => exact characterSetMatcher_mono _ _ _ _ _
+    | cons b bs =>
+      simp only [classStringMatcher]
+      exact matchSequence_mono (characterSetMatcher_mono _ _ _ _ _) ih d
+
+theorem alternativesOf_mono (ms : List Matcher) (h : ∀ m ∈ ms, m.Mono) :
+    (alternativesOf ms).Mono := by
+  induction ms with
+  | nil => exact failMatcher_mono
+  | cons a rest ih =>
+    cases rest with
+    | nil => exact h a (by simp)
+    | cons b bs =>
+      simp only [alternativesOf]
+      exact matchTwoAlternatives_mono (h a (by simp))
+        (ih (fun m hm => h m (List.mem_cons_of_mem _ hm)))
+
+theorem charSetAtomMatcher_mono (input : Array Nat) (rer : RER) (cs : CharSet) (inv : Bool)
+    (d : Direction) : (charSetAtomMatcher input rer cs inv d).Mono := by
+  simp only [charSetAtomMatcher]
+  split
+  · exact characterSetMatcher_mono _ _ _ _ _
+  · apply alternativesOf_mono
+    intro m hm
+    split at hm
+    · simp only [List.mem_append, List.mem_map, List.mem_singleton] at hm
+      rcases hm with (⟨s, _, rfl⟩ | rfl) | rfl
+      · exact classStringMatcher_mono _ _ _ _
+      · exact characterSetMatcher_mono _ _ _ _ _
+      · exact emptyMatcher_mono
+    · simp only [List.mem_append, List.mem_map, List.mem_singleton] at hm
+      rcases hm with ⟨s, _, rfl⟩ | rfl
+      · exact classStringMatcher_mono _ _ _ _
+      · exact characterSetMatcher_mono _ _ _ _ _
+
+/-- Every compiled Matcher is monotone in the fuel and the continuation. -/
+theorem compileNode_mono (input : Array Nat) (pattern : Node) (n : Node) :
+    ∀ rer d pi, (compileNode input pattern n rer d pi).Mono := by
+  induction n using Node.rec
+    (motive_2 := fun ns =>
+      (∀ acc rer d pi, acc.Mono → (compileAlternative input pattern acc ns rer d pi).Mono) ∧
+      (∀ rer d pi, (compileDisjunction input pattern ns rer d pi).Mono)) with
+  | empty => intro rer d pi; simp only [compileNode]; exact emptyMatcher_mono
+  | char c => intro rer d pi; simp only [compileNode]; exact characterSetMatcher_mono _ _ _ _ _
+  | dot => intro rer d pi; simp only [compileNode]; exact characterSetMatcher_mono _ _ _ _ _
+  | bol => intro rer d pi; simp only [compileNode]; exact bolMatcher_mono _ _
+  | eol => intro rer d pi; simp only [compileNode]; exact eolMatcher_mono _ _
+  | wb => intro rer d pi; simp only [compileNode]; exact wordBoundaryMatcher_mono _ _ _
+  | nwb => intro rer d pi; simp only [compileNode]; exact wordBoundaryMatcher_mono _ _ _
+  | cat ns ih => intro rer d pi; simp only [compileNode]; exact ih.1 _ _ _ _ emptyMatcher_mono
+  | alt ns ih => intro rer d pi; simp only [compileNode]; exact ih.2 _ _ _
+  | group idx name n ih =>
+    intro rer d pi; simp only [compileNode]
+    intro f f' x c c' hf hc
+    exact ih rer d (pi + 1) f f' x _ _ hf (fun y => hc _)
+  | nc n ih => intro rer d pi; simp only [compileNode]; exact ih _ _ _
+  | mod add rem n ih => intro rer d pi; simp only [compileNode]; exact ih _ _ _
+  | look ahead neg n ih =>
+    intro rer d pi; simp only [compileNode]
+    split
+    · exact negativeLookMatcher_mono (ih _ _ _)
+    · exact positiveLookMatcher_mono (ih _ _ _)
+  | bref idx => intro rer d pi; simp only [compileNode]; exact backreferenceMatcher_mono _ _ _ _
+  | nref name => intro rer d pi; simp only [compileNode]; exact backreferenceMatcher_mono _ _ _ _
+  | quant min max greedy n ih =>
+    intro rer d pi; simp only [compileNode]
+    intro f f' x c c' hf hc
+    exact repeatMatcher_mono (ih rer d pi) greedy pi _ f f' min max x c c' hf hc
+  | esc e => intro rer d pi; simp only [compileNode]; exact charSetAtomMatcher_mono _ _ _ _ _
+  | prop neg kind name => intro rer d pi; simp only [compileNode]; exact charSetAtomMatcher_mono _ _ _ _ _
+  | cls neg items => intro rer d pi; simp only [compileNode]; exact charSetAtomMatcher_mono _ _ _ _ _
+  | vcls neg op ops => intro rer d pi; simp only [compileNode]; exact charSetAtomMatcher_mono _ _ _ _ _
+  | nil =>
+    exact ⟨fun acc _ _ _ h => by simp only [compileAlternative]; exact h,
+           fun _ _ _ => by simp only [compileDisjunction]; exact failMatcher_mono⟩
+  | cons a as iha ihas =>
+    refine ⟨fun acc rer d pi h => ?_, fun rer d pi => ?_⟩
+    · simp only [compileAlternative]
+      exact ihas.1 _ _ _ _ (matchSequence_mono h (iha _ _ _) d)
+    · cases as with
+      | nil => simp only [compileDisjunction]; exact iha _ _ _
+      | cons b bs =>
+        simp only [compileDisjunction]
+        exact matchTwoAlternatives_mono (iha _ _ _) (ihas.2 _ _ _)
+
+/-- The anchored match is monotone in the fuel. -/
+theorem matchAt_mono (input : Array Nat) (pattern : Node) (rer : RER) {f f' : Nat} (h : f ≤ f')
+    (i : Nat) : (matchAt input pattern rer f i).le (matchAt input pattern rer f' i) :=
+  compileNode_mono input pattern pattern rer .forward 0 f f' _ _ _ h (Cont.le_refl _)
+
+theorem searchLoop_mono {run run' : Nat → MatchResult} (h : ∀ i, (run i).le (run' i)) :
+    ∀ tries i, searchLoop run tries i = .outOfFuel ∨ searchLoop run tries i = searchLoop run' tries i := by
+  intro tries
+  induction tries with
+  | zero => intro i; exact .inr rfl
+  | succ k ih =>
+    intro i
+    simp only [searchLoop]
+    rcases h i with h0 | h0
+    · rw [h0]; exact .inl rfl
+    · rw [← h0]
+      cases run i
+      · exact ih (i + 1)
+      · exact .inr rfl
+      · exact .inl rfl
+
+/-- **Fuel only ever turns `outOfFuel` into the definite answer**: a result of `esExec` other than
+`outOfFuel` is the result for every larger fuel. -/
+theorem esExec_fuel_mono (flags : Flags) (pattern : Node) (input : Array Nat) (start : Nat)
+    {f f' : Nat} (h : f ≤ f') (hr : esExec flags pattern input start f ≠ .outOfFuel) :
+    esExec flags pattern input start f' = esExec flags pattern input start f := by
+  rw [esExec_eq] at hr ⊢
+  rw [esExec_eq]
+  rcases searchLoop_mono (fun i => matchAt_mono input pattern _ h i) (input.size + 1 - start) start
+    with h0 | h0
+  · exact absurd h0 hr
+  · exact h0.symm
+
 /-! ## Non-vacuity: concrete runs of the specification (evaluated by the kernel) -/
 
 /-- `/(a)|b/` on "ba" from 0 matches `b` at 0 with group 1 undefined (not `a` at 1). -/
@@ -299,8 +558,26 @@ example :
         .group 2 none (.char 0x62)]), .char 0x63]) #[0x61, 0x62, 0x63] 0 10 =
       .matched 2 3 [some (0, 1), some (1, 2)] := by decide
 
+/-- non-vacuity of `esExec_fuel_mono`: fuel 4 already decides `/a*/` on "aaa". -/
+example : esExec {} (.quant 0 none true (.char 0x61)) #[0x61, 0x61, 0x61] 0 4 = .matched 0 3 [] := by
+  decide
+
 /-- `/a*/` with too little fuel reports `outOfFuel`, never a wrong answer. -/
 example : esExec {} (.quant 0 none true (.char 0x61)) #[0x61, 0x61, 0x61] 0 2 = .outOfFuel := by
   decide
 
 end Regress.ES
+
+#print axioms Regress.ES.alt_assoc
+#print axioms Regress.ES.cat_flatten_right
+#print axioms Regress.ES.cat_flatten_left
+#print axioms Regress.ES.nc_eq
+#print axioms Regress.ES.quant_one_one
+#print axioms Regress.ES.esExec_matched_least
+#print axioms Regress.ES.esExec_noMatch
+#print axioms Regress.ES.esExec_complete
+#print axioms Regress.ES.esExec_alt_assoc
+#print axioms Regress.ES.esExec_cat_flatten
+#print axioms Regress.ES.esExec_nc
+#print axioms Regress.ES.compileNode_mono
+#print axioms Regress.ES.esExec_fuel_mono
